@@ -128,6 +128,8 @@ Section Model.
     mkBias (b_id b) (b_tsf b) (b_vars b) (b_bypass b) (b_apply b) (b_upd b) (b_st b) a rc (b_awake b) (b_energy b) (b_forces b) (b_scale b) (b_fac b).
   Definition set_bawake (b : bias) (w : bool) : bias :=
     mkBias (b_id b) (b_tsf b) (b_vars b) (b_bypass b) (b_apply b) (b_upd b) (b_st b) (b_active b) (b_rc b) w (b_energy b) (b_forces b) (b_scale b) (b_fac b).
+  Definition set_bapply (b : bias) (a : bool) : bias :=
+    mkBias (b_id b) (b_tsf b) (b_vars b) (b_bypass b) a (b_upd b) (b_st b) (b_active b) (b_rc b) (b_awake b) (b_energy b) (b_forces b) (b_scale b) (b_fac b).
   Definition set_bout (b : bias) (s : BS) (e : T) (fs : list T) (fac : T) : bias :=
     mkBias (b_id b) (b_tsf b) (b_vars b) (b_bypass b) (b_apply b) (b_upd b) s (b_active b) (b_rc b) (b_awake b) e fs (b_scale b) fac.
 
@@ -168,6 +170,18 @@ Section Model.
     if b_awake b then
       let '(b1, vs1, e) := bias_decr_active b vs in (set_bawake b1 false, vs1, e)
     else (b, vs, false).
+
+  (* run-time switch of the user feature f_cvb_apply_force (`cv bias <name> set apply_force on|off`):
+     enable(f_cvb_apply_force) toplevel references f_cv_apply_force of the children only while the bias is active
+     (otherwise restore_children_deps does it when the bias wakes up); disable dereferences them while it is active *)
+  Definition bias_enable_apply (b : bias) (vs : list var) : bias * list var :=
+    if b_apply b then (b, vs)
+    else (set_bapply b true, if b_active b then on_children var_ref_apply (b_vars b) vs else vs).
+  Definition bias_disable_apply (b : bias) (vs : list var) : bias * list var * bool :=
+    if negb (b_apply b) then (b, vs, false)
+    else
+      let '(vs1, e) := if b_active b then on_children_e var_decr_apply (b_vars b) vs else (vs, false) in
+      (set_bapply b false, vs1, e).
 
   (* ---- calc_colvars: the awake schedule ---------------------------------------------------------
      [fixed] = true is the code after the fix "a bias or variable with timeStepFactor n was evaluated
@@ -307,7 +321,8 @@ Section Model.
   Inductive event :=
   | EStep (xs : list (list cvc_in))      (* the engine advances one step (not before the first call), then calc() *)
   | ERepeat (xs : list (list cvc_in))    (* calc() again at the same step number (a new run in the same process) *)
-  | ESetActive (id : nat) (on : bool).   (* script: cv bias <id> set active on|off *)
+  | ESetActive (id : nat) (on : bool)    (* script: cv bias <id> set active on|off *)
+  | ESetApply (id : nat) (on : bool).    (* script: cv bias <id> set apply_force on|off *)
 
   Fixpoint set_active (id : nat) (on : bool) (bs : list bias) (vs : list var) : list bias * list var * bool :=
     match bs with
@@ -322,6 +337,19 @@ Section Model.
       (b' :: r', vs2, e1 || e2)
     end.
 
+  Fixpoint set_apply (id : nat) (on : bool) (bs : list bias) (vs : list var) : list bias * list var * bool :=
+    match bs with
+    | [] => ([], vs, false)
+    | b :: r =>
+      let '(b', vs1, e1) :=
+        if Nat.eqb (b_id b) id then
+          if on then let '(b1, v1) := bias_enable_apply b vs in (b1, v1, false)
+          else bias_disable_apply b vs
+        else (b, vs, false) in
+      let '(r', vs2, e2) := set_apply id on r vs1 in
+      (b' :: r', vs2, e1 || e2)
+    end.
+
   Definition do_calc (m : mstate) (it : Z) (xs : list (list cvc_in)) : mstate * list out :=
     let '(vs, bs, e, en) := calc it (m_vars m) (m_biases m) xs in
     (mkM it false vs bs, [mkOut it e en vs bs]).
@@ -332,6 +360,9 @@ Section Model.
     | ERepeat xs => do_calc m (m_it m) xs
     | ESetActive id on =>
       let '(bs, vs, _) := set_active id on (m_biases m) (m_vars m) in
+      (mkM (m_it m) (m_first m) vs bs, [])
+    | ESetApply id on =>
+      let '(bs, vs, _) := set_apply id on (m_biases m) (m_vars m) in
       (mkM (m_it m) (m_first m) vs bs, [])
     end.
 
